@@ -44,8 +44,8 @@ def batcher(name, up, size=None):
     return {'kind': 'batcher', 'name': name, 'up': list(up), 'size': size}
 
 
-def group(name, members):
-    return {'kind': 'group', 'name': name, 'members': list(members)}
+def group(name, members, inputs=None, outputs=None):
+    return {'kind': 'group', 'name': name, 'members': list(members), 'inputs': inputs, 'outputs': outputs}
 
 
 def path(name, grp, up):
@@ -612,3 +612,20 @@ def QUIET(K=0, horizon=4):
     '''A model that goes quiet long before the horizon (one part, then no event left): runs split after that.'''
     devs = [src('S', 1, 1), proc('M', ['S'], 0.5), sink('K', ['M'])]
     return spec(f'QUIET[K{K}]', devs, horizon, [('adjust', 'S', 1), ('block', 'K', True), ('block', 'K', False)], K)
+
+
+def GRPPAR(K=0, horizon=6, ops=None, resources=False):
+    '''A shared group of two PARALLEL machines with different cycle times (input and output override), used by two
+    paths: parts overtake each other inside the group, so they do not leave in LIFO order.'''
+    kw = {'resources': {'r': 1}} if resources else {}
+    devs = [proc('M1', [], 1, **kw), proc('M2', [], 3, **kw), group('G', ['M1', 'M2'], ['M1', 'M2'], ['M1', 'M2']),
+            src('S1', 1), src('S2', 2), path('a', 'G', ['S1']), path('b', 'G', ['S2']),
+            sink('K1', ['a']), sink('K2', ['b'], 1)]
+    if ops is None:
+        ops = [('fail', 'M1', 0), ('restore', 'M1'), ('block', 'b', True), ('block', 'b', False)]
+        if resources:
+            ops += [('addres', 'r', -1), ('addres', 'r', 1)]
+    s = spec(f'GRPPAR[{"res," if resources else ""}K{K}]', devs, horizon, ops, K)
+    if resources:
+        s['pools'] = {'r': 1}
+    return s
